@@ -441,3 +441,19 @@ def link_sidecars():
             if k not in vars(m):
                 setattr(m, k, v)
     return mods
+
+
+def init(xs):
+    return xs[:-1]
+
+
+def last(xs):
+    return xs[-1]
+
+
+def markers_eq(a, b):
+    """two marker lists are the same markers in the same order (marker objects compare by identity in
+    penman; a copy of a graph has equal markers in this sense)"""
+    if a is None or b is None:
+        return a is b
+    return [repr(x) for x in a] == [repr(x) for x in b]
